@@ -125,6 +125,10 @@ func (e *Env) run(shard uint32, fn string, snd, dst []byte, in *vmcommon.Contrac
 	if MeasureAlloc {
 		runtime.ReadMemStats(&m0)
 	}
+	var afterCall func()
+	if e.PrepareInput != nil {
+		afterCall = e.PrepareInput(in)
+	}
 	func() {
 		defer func() {
 			if r := recover(); r != nil {
@@ -135,6 +139,9 @@ func (e *Env) run(shard uint32, fn string, snd, dst []byte, in *vmcommon.Contrac
 		}()
 		leg.Out, leg.Err = f.ProcessBuiltinFunction(hs, hd, in)
 	}()
+	if afterCall != nil {
+		afterCall()
+	}
 	if MeasureAlloc {
 		var m1 runtime.MemStats
 		runtime.ReadMemStats(&m1)
